@@ -1,5 +1,6 @@
 import GeomV.C17.Model
 import GeomV.C17.Spec
+import Std.Data.HashMap
 /-!
 Driver for C17.  `geomv_c17 judge` reads lines
 
@@ -45,7 +46,8 @@ def judgeLine (line : String) : String :=
     | some (g, _) =>
       let res := rhs.takeWhile (· ≠ "|")
       let table := pairsOf (rhs.drop (res.length + 1))
-      let fmt : UInt64 → List Char := fun b => (table.lookup b).getD ['?']
+      let hm : Std.HashMap UInt64 (List Char) := Std.HashMap.ofList table
+      let fmt : UInt64 → List Char := fun b => (hm.get? b).getD ['?']
       let fin := allFinite Dec.isFiniteBits g
       let guard := everyMemberNonEmpty g
       let cls := "enc-" ++ geomClass g ++ (if !guard then "-emptymember" else "") ++ (if !fin then "-nonfinite" else "")
